@@ -8,6 +8,7 @@ import (
 	"os"
 	"sort"
 	"strings"
+	"syscall"
 	"time"
 
 	"github.com/openebs/jiva/verifshim/vs"
@@ -303,7 +304,13 @@ func WorkerMain() {
 	Quiet()
 	defer C10Cleanup()
 	in := bufio.NewReaderSize(os.Stdin, 1<<20)
-	out := bufio.NewWriter(os.Stdout)
+	// the code under test prints to stdout in places: keep the protocol on a private duplicate of the descriptor
+	proto := os.Stdout
+	if fd, err := syscall.Dup(1); err == nil {
+		proto = os.NewFile(uintptr(fd), "protocol")
+		syscall.Dup2(2, 1)
+	}
+	out := bufio.NewWriter(proto)
 	var total int64
 	for {
 		line, err := in.ReadBytes('\n')
